@@ -528,36 +528,44 @@ func (s *Sched) RunSolo(g *G, budget int) bool {
 		if s.CrashRequested {
 			return false
 		}
-		en := s.Enabled()
-		var pick *Action
+		if !s.SoloStep(g) {
+			return g.done
+		}
+	}
+	return g.done
+}
+
+// SoloStep performs one step in favour of g: g itself if it is enabled, else
+// the holder of the writer lock g may be waiting for, else (g is blocked, not
+// parked, waiting for others - e.g. Stop waiting for the followers) one fair
+// step of the others. It returns false when nothing is enabled.
+//
+//go:norace
+func (s *Sched) SoloStep(g *G) bool {
+	en := s.Enabled()
+	var pick *Action
+	for k := range en {
+		if en[k].G == g {
+			pick = &en[k]
+			break
+		}
+	}
+	if pick == nil {
+		s.mu.Lock()
+		lh := s.lockHolder
+		s.mu.Unlock()
 		for k := range en {
-			if en[k].G == g {
+			if lh != nil && en[k].G == lh {
 				pick = &en[k]
 				break
 			}
 		}
-		if pick == nil {
-			s.mu.Lock()
-			lh := s.lockHolder
-			s.mu.Unlock()
-			for k := range en {
-				if lh != nil && en[k].G == lh {
-					pick = &en[k]
-					break
-				}
-			}
-		}
-		if pick == nil {
-			// g may be blocked (not parked) waiting for others, e.g. Stop
-			// waiting for the followers: let the others run fairly.
-			if !s.StepFair() {
-				return g.done
-			}
-			continue
-		}
-		s.Do(*pick)
 	}
-	return g.done
+	if pick == nil {
+		return s.StepFair()
+	}
+	s.Do(*pick)
+	return true
 }
 
 // Quiesce runs fairly until nothing is enabled; returns steps used and whether
